@@ -4,6 +4,7 @@ import Heathcliff.Proofs.GenScalingSpec
 import Heathcliff.Proofs.C07F
 import Heathcliff.Proofs.GenEvalCt
 import Heathcliff.Proofs.GenEvalCt3
+import Heathcliff.Proofs.GenDec4
 
 /- Property theorems only (statements verbatim; proofs are the helper lemmas of Heathcliff/Proofs). -/
 namespace HC.C07
@@ -133,5 +134,25 @@ theorem gen_ct_translate_inplace_sub_tail_partial : type_of% @HC.gc_translate_in
      correction factors (Proofs/GenEvalCt3.lean; witnesses in Props/C02.lean) -/
 theorem gen_ct_translate_inplace_eq_general : type_of% @HC.gt_translate_inplace_eq_general := @HC.gt_translate_inplace_eq_general
 theorem gen_ct_translate_inplace_balanced : type_of% @HC.gt_translate_inplace_balanced := @HC.gt_translate_inplace_balanced
+
+/-! ### Phase 4m (tools/rs2lean_dec.py, Gen/DecFns.lean): the decryptor's norm / budget / correction-factor code of src/encryptor.rs tied to the source -/
+/-- GENERATED `bgv_decrypt` (skeleton: opaque steps 1 = phase, 2 = inverse NTT, 3 = `decrypt_mod_t`) = the model's correction-factor fix-up + trimming -/
+theorem gen_bgv_decrypt_eq : type_of% @HC.gd_bgv_decrypt_eq := @HC.gd_bgv_decrypt_eq
+/-- the `if ct.cf ≠ 1` block of `bgvDecrypt` (Model/Scheme.lean) is `bgvFixupL` -/
+theorem bgvFixup_is_model : type_of% @HC.gd_bgvFixup_model := @HC.gd_bgvFixup_model
+/-- EVERY plain modulus 2 ≤ t < 2^61, COMPOSITE included, every cf ≠ 1 coprime to t: every coefficient is multiplied by the inverse of cf mod t -/
+theorem bgvFixup_spec : type_of% @HC.gd_bgvFixup_spec := @HC.gd_bgvFixup_spec
+theorem bgvFixup_refuses : type_of% @HC.gd_bgvFixup_refuses := @HC.gd_bgvFixup_refuses
+/-- witnesses: composite t = 12, cf = 5 -/
+theorem bgv_decrypt_witness : type_of% @HC.gd_bgv_witness := @HC.gd_bgv_witness
+theorem bgvFixup_witness : type_of% @HC.gd_bgvFixup_witness := @HC.gd_bgvFixup_witness
+/-- GENERATED `invariant_noise_budget` (skeleton): refusals, plan, norm, bit counts, `bits(Q) - bits(norm) - 1` clamped at 0 -/
+theorem gen_invariant_noise_budget_eq : type_of% @HC.gd_invariant_noise_budget_eq := @HC.gd_invariant_noise_budget_eq
+theorem gen_budget_arith : type_of% @HC.gd_budget_arith := @HC.gd_budget_arith
+theorem gen_budget_witness : type_of% @HC.gd_budget_witness := @HC.gd_budget_witness
+/-- GENERATED `poly_infty_norm`: its frame, and the value-level meaning of one coefficient step (centred lift with `≥`, running maximum) -/
+theorem gen_poly_infty_norm_unfold : type_of% @HC.gd_poly_infty_norm_unfold := @HC.gd_poly_infty_norm_unfold
+theorem normStepW_spec : type_of% @HC.gd_normStepW_spec := @HC.gd_normStepW_spec
+theorem gen_norm_witness : type_of% @HC.gd_norm_witness := @HC.gd_norm_witness
 
 end HC.C07
